@@ -21,6 +21,8 @@ use vsupport::{harness, nd, witness};
 pub mod env;
 pub mod comps;
 pub mod mapstep;
+pub mod track;
+pub mod dropstep;
 
 pub use comps::*;
 pub use env::*;
